@@ -6,6 +6,7 @@
 //@typemap /\bP::Point\b/ => Fr
 //@typemap /\bP::/ => Poly::
 //@typemap /: P,/ => : Poly,
+//@typemap /: &P =/ => : &Poly =
 //@typemap /Self::CommitterKey/ => CommitterKey
 //@typemap /Self::Commitment/ => kzg10::Commitment
 //@typemap /Self::CommitmentState/ => kzg10::Randomness
@@ -24,11 +25,13 @@ pub mod kzg10 {
 //@struct file=poly-commit/src/kzg10/data_structures.rs name=Proof
 //@spec kzg10_check_spec kzg10_commit_spec
     impl Randomness {
+//@stub from=kzg10.rs id=kzg10.Randomness.rand
 //@stub from=kzg10.rs id=kzg10.Randomness.empty
 //@stub from=marlin_prover.rs id=kzg10.Randomness.add_assign_scaled
     }
     pub struct KZG10;
     impl KZG10 {
+//@stub from=kzg10.rs id=kzg10.commit
 //@stub from=kzg10.rs id=kzg10.check_degrees_and_bounds
 //@stub from=kzg10.rs id=kzg10.open
     }
@@ -41,6 +44,16 @@ impl Poly {
                 final(self).coeffs@.len() <= (if old(self).coeffs@.len() >= q.1.coeffs@.len() { old(self).coeffs@.len() } else { q.1.coeffs@.len() }),
     { unimplemented!() }
 }
+// `m[&k].clone()` on BTreeMap<usize, Vec<G1Affine>>: panics (= diverges) if the key is absent
+#[verifier::external_body] pub fn btree_index_vec_g1(m: &BTreeMap<usize, Vec<G1Affine>>, k: &usize) -> (r: Vec<G1Affine>) ensures m@.dom().contains(*k), r@ == m@[*k]@ { unimplemented!() }
+// what SonicKZG10::trim establishes (units/sonic_trim.rs)
+pub open spec fn sonic_ck_wf(ck: &CommitterKey) -> bool {
+    ck.powers_of_g@.len() >= 1
+    && (ck.enforced_degree_bounds is Some ==> sorted_usize(ck.enforced_degree_bounds->Some_0@))
+    && (ck.shifted_powers_of_g is Some ==> (ck.enforced_degree_bounds is Some && ck.enforced_degree_bounds->Some_0@.len() > 0
+        && ck.enforced_degree_bounds->Some_0@.last() <= ck.shifted_powers_of_g->Some_0@.len()))
+    && ((ck.enforced_degree_bounds is Some && ck.enforced_degree_bounds->Some_0@.len() > 0) ==> (ck.shifted_powers_of_g is Some && ck.shifted_powers_of_gamma_g is Some))
+}
 impl CommitterKey {
 //@fn id=sonic_pc.CommitterKey.powers file=poly-commit/src/sonic_pc/data_structures.rs scope="impl<E: Pairing> CommitterKey<E>" name=powers props=C08,C09
     pub fn powers(&self) -> (r: kzg10::Powers)
@@ -50,6 +63,24 @@ impl CommitterKey {
 //@body
 //@rw * /(self\.\w+)\.as_slice\(\)\.into\(\)/ => cow_from_slice(\1.as_slice())
 //@end
+//@fn id=sonic_pc.CommitterKey.shifted_powers file=poly-commit/src/sonic_pc/data_structures.rs scope="impl<E: Pairing> CommitterKey<E>" name=shifted_powers props=C04,C08,C09
+    pub fn shifted_powers(&self, degree_bound: Option<usize>) -> (r: Option<kzg10::Powers>)
+    requires
+        sonic_ck_wf(self),
+    ensures
+        (r is Some) == (self.shifted_powers_of_g is Some && self.shifted_powers_of_gamma_g is Some),
+        // the window for bound d starts at (largest enforced bound - d); the hiding powers are the ones trimmed for that bound
+        (r is Some && degree_bound is Some) ==> (self.enforced_degree_bounds->Some_0@.contains(degree_bound->Some_0)
+            && r->Some_0.powers_of_g@ == self.shifted_powers_of_g->Some_0@.subrange(self.enforced_degree_bounds->Some_0@.last() - degree_bound->Some_0, self.shifted_powers_of_g->Some_0@.len() as int)
+            && r->Some_0.powers_of_gamma_g@ == self.shifted_powers_of_gamma_g->Some_0@[degree_bound->Some_0]@),   // name=sonic_pc.ck.shifted_powers.window_start_and_hiding_powers_of_that_bound props=C04,C08
+        (r is Some && degree_bound is None) ==> r->Some_0.powers_of_g@ =~= self.shifted_powers_of_g->Some_0@
+            && r->Some_0.powers_of_gamma_g@ == self.shifted_powers_of_gamma_g->Some_0@[self.enforced_degree_bounds->Some_0@.last()]@,   // name=sonic_pc.ck.shifted_powers.full_window props=C04
+//@body
+//@rw 1 /degree_bound\.into\(\)/ => degree_bound
+//@rw 1 /(?s)assert!\(self\s*\.enforced_degree_bounds\s*\.as_ref\(\)\s*\.unwrap\(\)\s*\.contains\(&degree_bound\)\)/ => rassert!(contains_usize(self.enforced_degree_bounds.as_ref().unwrap().as_slice(), &degree_bound))
+//@rw 1 /shifted_powers_of_g\[powers_range\.clone\(\)\]\.into\(\)/ => cow_from_slice(&shifted_powers_of_g[powers_range])
+//@rw 1 /shifted_powers_of_gamma_g\[([^\]]+)\]\.clone\(\)\.into\(\)/ => btree_index_vec_g1(shifted_powers_of_gamma_g, \1)
+//@end
 //@fn id=sonic_pc.CommitterKey.supported_degree file=poly-commit/src/sonic_pc/data_structures.rs scope="impl<E: Pairing> PCCommitterKey for CommitterKey<E>" name=supported_degree props=C09
     pub fn supported_degree(&self) -> (r: usize)
     requires
@@ -57,6 +88,51 @@ impl CommitterKey {
     ensures
         r == self.powers_of_g@.len() - 1,   // name=sonic_pc.ck.supported_degree.truthful props=C09
 //@body
+//@end
+}
+// Sonic commits a degree-bounded polynomial ONLY under the shifted window for its bound (no separate plain commitment)
+pub open spec fn sonic_commit_one(ck: &CommitterKey, p: &LabeledPolynomial, c: &LabeledCommitment<kzg10::Commitment>, st: &kzg10::Randomness) -> bool {
+    c.label == p.label && c.degree_bound == p.degree_bound
+    && (p.degree_bound is None ==> c.commitment.0@ == f_add(msm(ck.powers_of_g@, p.polynomial.cv(), p.polynomial.len()),
+            msm(ck.powers_of_gamma_g@, st.blinding_polynomial.cv(), min(ck.powers_of_gamma_g@.len(), st.blinding_polynomial.len()))))
+    && (p.degree_bound is Some ==> {
+            let w = ck.shifted_powers_of_g->Some_0@.subrange(ck.enforced_degree_bounds->Some_0@.last() - p.degree_bound->Some_0, ck.shifted_powers_of_g->Some_0@.len() as int);
+            let gw = ck.shifted_powers_of_gamma_g->Some_0@[p.degree_bound->Some_0]@;
+            c.commitment.0@ == f_add(msm(w, p.polynomial.cv(), p.polynomial.len()), msm(gw, st.blinding_polynomial.cv(), min(gw.len(), st.blinding_polynomial.len()))) })
+    && (p.hiding_bound is None ==> st.blinding_polynomial.len() == 0)
+    && (p.hiding_bound is Some ==> st.blinding_polynomial.len() == p.hiding_bound->Some_0 + 2)
+}
+pub open spec fn sonic_admissible(ck: &CommitterKey, p: &LabeledPolynomial) -> bool {
+    p.degree_bound is Some ==> (ck.enforced_degree_bounds is Some && ck.enforced_degree_bounds->Some_0@.contains(p.degree_bound->Some_0)
+            && p.polynomial.degree_spec() <= p.degree_bound->Some_0 && p.degree_bound->Some_0 <= ck.max_degree)
+}
+impl SonicKZG10 {
+//@fn id=sonic_pc.commit file=poly-commit/src/sonic_pc/mod.rs scope="impl<E, P> PolynomialCommitment<E::ScalarField, P> for SonicKZG10<E, P>" name=commit props=C08,C04,C07,C17,C01
+    fn commit<'a>(ck: &CommitterKey, polynomials: Vec<&'a LabeledPolynomial>, rng: Option<&mut Rng>) -> (res: Result<(Vec<LabeledCommitment<kzg10::Commitment>>, Vec<kzg10::Randomness>), Error>)
+    requires
+        sonic_ck_wf(ck),
+        forall|i: int| 0 <= i < polynomials@.len() ==> (#[trigger] polynomials@[i]).polynomial.wf() && polynomials@[i].polynomial.coeffs@.len() < usize::MAX
+            && (polynomials@[i].hiding_bound is Some ==> polynomials@[i].hiding_bound->Some_0 < usize::MAX - 1),
+    ensures
+        res is Ok ==> (forall|i: int| 0 <= i < polynomials@.len() ==> sonic_admissible(ck, (#[trigger] polynomials@[i]))),   // name=sonic_pc.commit.bound_violations_are_refused props=C04,C17
+        res is Ok ==> res->Ok_0.0@.len() == polynomials@.len() && res->Ok_0.1@.len() == polynomials@.len(),   // name=sonic_pc.commit.one_commitment_and_state_per_polynomial props=C01
+        res is Ok ==> (forall|i: int| 0 <= i < polynomials@.len() ==> sonic_commit_one(ck, (#[trigger] polynomials@[i]), &res->Ok_0.0@[i], &res->Ok_0.1@[i])),   // name=sonic_pc.commit.commitments_are_the_key_defined_linear_maps props=C08,C04,C07,C01
+        (res is Ok && rng is None) ==> (forall|i: int| 0 <= i < polynomials@.len() ==> (#[trigger] polynomials@[i]).hiding_bound is None),   // name=sonic_pc.commit.hiding_without_rng_never_succeeds props=C07,C17
+//@body
+//@rw * /&mut crate::optional_rng::OptionalRng\(rng\)/ => &mut optional_rng_wrap(rng)
+//@rw * /Some\(rng\)/ => Some(&mut *rng)
+//@rw * /ck\.shifted_powers\(degree_bound\)\.unwrap\(\)/ => ck.shifted_powers(Some(degree_bound)).unwrap()
+//@rw * /label\.to_string\(\)/ => string_to_string(label)
+//@closure |bounds| => |bounds: &Vec<usize>| -> (sl: &[usize]) ensures sl@ == bounds@
+//@after start
+        let ghost rng_present = rng is Some;
+//@loop 1 kw=for name=it
+            invariant sonic_ck_wf(ck), it.index@ <= polynomials@.len(), labeled_comms@.len() == it.index@, randomness@.len() == it.index@,
+                rng.present@ ==> rng_present,
+                forall|i: int| 0 <= i < polynomials@.len() ==> (#[trigger] polynomials@[i]).polynomial.wf() && polynomials@[i].polynomial.coeffs@.len() < usize::MAX
+                    && (polynomials@[i].hiding_bound is Some ==> polynomials@[i].hiding_bound->Some_0 < usize::MAX - 1),
+                forall|i: int| 0 <= i < it.index@ ==> sonic_admissible(ck, (#[trigger] polynomials@[i])) && sonic_commit_one(ck, polynomials@[i], &labeled_comms@[i], &randomness@[i])
+                    && (polynomials@[i].hiding_bound is Some ==> rng_present),
 //@end
 }
 // challenge-weighted combination the prover opens: sum_j xi_j * p_j  (xi_0 squeezed before the loop, xi_{j+1} after polynomial j)
